@@ -2,6 +2,9 @@ import MalVerif.Props.C04
 import MalVerif.Py.TieVisitorTop
 import MalVerif.Py.TieVisitorTtc
 import MalVerif.Py.TieVisitorEq
+import MalVerif.Py.TieVisitorFile
+import MalVerif.Proofs.AssembleInclude
+import MalVerif.Proofs.CompileRefl
 /-!
 # C04 for the *translated* visitor
 
@@ -25,7 +28,15 @@ chain of `parentCtx` of `t`.  Values are rendered by `rExpr`, `rTtc`, `rExprs`, 
   associations, include merging, de-duplication with Python's `==`; raises exactly when an include fails),
   `translated_eq_is_model` (Python's `==` on the values that are de-duplicated = `catEqv` / `assetEqv` / `assocEqv`),
   `translated_dedup_meta_order`, `translated_dedup_number_spelling` (the two repaired divergences, on the translated
-  code), `translated_include_flatten`, `translated_include_repeat`.
+  code), `translated_include_flatten`, `translated_include_repeat`;
+* steps, assets, categories, whole files (§8): `translated_step_is_model` (`visitStep`), `translated_asset_is_model`
+  (`visitAsset`), `translated_declaration_is_model` (`visitCategory`, …), `translated_declarations_are_model`
+  (`visitCategory` / `visitAsset` / … for every declaration of a file: the hypothesis `DeclVisits` of
+  `translated_visitMal_is_assemble` discharged), `translated_parser_accepts_iff`, **`translated_compile_is_model`**
+  (translated visitor ∘ tree builder ∘ lexer = rendered `compileFile`, errors iff errors, for every file system),
+  `translated_compile_ok_iff`, **`compile_render_print`** (print a specification, render it, compile it with the
+  translated visitor: it comes back), `translated_include_flatten_file`, `translated_include_repeat_file`,
+  `lexer_tokens_ok` (the former hypotheses `numOK` / `intOK` hold of every token the lexer produces).
 -/
 namespace MalVerif.PropsGen.C04
 open MalVerif MalVerif.Mal MalVerif.Py.Visitor MalVerif.Py.GenVisitor
@@ -548,5 +559,226 @@ example : visitF (fun _ => .ok (rSpec { categories := [("Sys", [])] })) [] 0 5
     (.cons ⟨_, rfl, (include_tie (fun _ => .ok (rSpec { categories := [("Sys", [])] })) [] 0 "\"a.mal\"" 0 1 4 _
       (by decide)).trans rfl⟩ .nil)
   exact h
+
+
+/-! ### 8. steps, assets, categories — and whole files -/
+
+/-- **A step** `steptype ID tag* cias? ttc? meta* precondition? reaches?` at its place in the token stream of the file
+`all` (`AtPos`: `its` is what is left of the indexed stream).  The tree builder fails exactly when the model parser
+fails; otherwise they consume the same tokens, and — when the step is followed by the end of the input or a token that
+ends a clause (`EndsOK`; inside an asset body always: `}`, `let` or the next step type) — the translated `visitStep`
+(name, meta comprehension, `visitSteptype`, tags, `visitCias`, `visitTtc`, `visitPrecondition`, `visitReaches` with the
+scan of `_resolve_part_ID_type`) returns the rendering of the model's step. -/
+theorem translated_step_is_model (c : V → M V) (all : List Tok) (wf f : Nat) (its : List ITok) (hpos : AtPos all its)
+    (hnum : ∀ x ∈ its, numOK x.1 = true) :
+    (treeStep f its = none → parseStep f (its.map Prod.fst) = none) ∧
+    (∀ t irest, treeStep f its = some (t, irest) →
+      ∃ s, parseStep f (its.map Prod.fst) = some (s, irest.map Prod.fst) ∧
+        (EndsOK irest → ∀ g up, t.depth ≤ g → up.length + t.depth < wf → (∀ p ∈ up, isRule "reaches" p = false) →
+          visitF c (tokensV all) wf g (.ctx t up) = .ok (rStep s))) := by
+  refine ⟨step_none f its, fun t irest h => ?_⟩
+  obtain ⟨s, hp, -, -, hv⟩ := step_tie c all wf f its t irest hpos hnum h
+  exact ⟨s, hp, hv⟩
+
+/-- **The declarations of a file** (`include`, `#define`, `category { asset … }`, `associations { … }`): the tree builder
+fails exactly when the model parser fails; otherwise the same tokens are consumed and visiting the child of the i-th
+`declaration` context with the translated visitor (`visitInclude`, `visitDefine`, `visitCategory` → `visitAsset` →
+`visitStep` / `visitVariable`, `visitAssociations`) gives the rendering of the i-th model declaration — the hypothesis
+`DeclVisits` of `translated_visitMal_is_assemble`, now a theorem. -/
+theorem translated_declarations_are_model (c : V → M V) (all : List Tok) (wf f : Nat) (its : List ITok)
+    (hpos : AtPos all its) (hok : ∀ x ∈ its, tokOK x.1 = true) :
+    (treeDeclsRest f its = none → parseDeclsRest f [] (its.map Prod.fst) = none) ∧
+    (∀ cs irest, treeDeclsRest f its = some (cs, irest) →
+      ∃ ds, parseDeclsRest f [] (its.map Prod.fst) = some (ds, irest.map Prod.fst) ∧
+        ∀ g node up, PT.depthL cs ≤ g → up.length + 1 + PT.depthL cs < wf →
+          (∀ p ∈ node :: up, isRule "reaches" p = false) →
+          Forall2 (DeclVisits (selfAt c (tokensV all) wf g)) (cs.map (mkCtx node up)) ds) := by
+  have h := decls_tie c all wf f its [] hpos hok
+  constructor
+  · intro hn; rw [hn] at h; exact h
+  · intro cs irest hs
+    rw [hs] at h
+    obtain ⟨ds, hp, -, hv⟩ := h
+    exact ⟨ds, by simpa using hp, hv⟩
+
+/-- **An asset** `abstract? asset ID (extends ID)? meta* { (step | variable)* }` at its place in the token stream, below
+a `category` context of the name `cat` (`visitAsset` reads `ctx.parentCtx.ID()`): the tree builder fails exactly when
+the model parser fails; otherwise the same tokens are consumed and the translated `visitAsset` (name = first `ID`,
+`isAbstract` = there is an `ABSTRACT` token, `superAsset` = second `ID` if there is one, meta comprehension, the two
+comprehensions over `ctx.variable()` / `ctx.step()`) returns the rendering of the model's asset. -/
+theorem translated_asset_is_model (c : V → M V) (all : List Tok) (wf f : Nat) (cat : String) (its : List ITok)
+    (hpos : AtPos all its) (hok : ∀ x ∈ its, tokOK x.1 = true) :
+    (treeAsset f its = none → parseAsset f cat (its.map Prod.fst) = none) ∧
+    (∀ t irest, treeAsset f its = some (t, irest) →
+      ∃ a, parseAsset f cat (its.map Prod.fst) = some (a, irest.map Prod.fst) ∧
+        ∀ g ci cj crest up, t.depth ≤ g → up.length + 1 + t.depth < wf → (∀ p ∈ up, isRule "reaches" p = false) →
+          visitF c (tokensV all) wf g (.ctx t (catNode ci cj cat crest :: up)) = .ok (rAsset a)) := by
+  have h := asset_tie c all wf f cat its hpos hok
+  constructor
+  · intro hn; rw [hn] at h; exact h
+  · intro t irest hs
+    rw [hs] at h
+    obtain ⟨a, hp, -, -, hv⟩ := h
+    exact ⟨a, hp, hv⟩
+
+/-- **One declaration** — in particular `category ID meta* { asset* }`: the tree builder fails exactly when the model
+parser fails; otherwise the same tokens are consumed, the tree is a `declaration` context with one child, and the
+translated visitor on the child (`visitCategory`: `("categories", ([{name, meta}], [every asset]))`; `visitInclude`;
+`visitDefine`; `visitAssociations`) returns the rendering `rDecl` of the model's declaration. -/
+theorem translated_declaration_is_model (c : V → M V) (all : List Tok) (wf f : Nat) (its : List ITok)
+    (hpos : AtPos all its) (hok : ∀ x ∈ its, tokOK x.1 = true) :
+    (treeDecl f its = none → parseDecl f (its.map Prod.fst) = none) ∧
+    (∀ t irest, treeDecl f its = some (t, irest) →
+      ∃ d, parseDecl f (its.map Prod.fst) = some (d, irest.map Prod.fst) ∧
+        ∃ child, t = .rule "declaration" [child] ∧
+          ∀ g up, t.depth ≤ g → up.length + t.depth < wf → (∀ p ∈ up, isRule "reaches" p = false) →
+            visitF c (tokensV all) wf g (.ctx child (t :: up)) = .ok (rDecl d)) := by
+  have h := decl_tie c all wf f its hpos hok
+  constructor
+  · intro hn; rw [hn] at h; exact h
+  · intro t irest hs
+    rw [hs] at h
+    obtain ⟨d, hp, -, hv⟩ := h
+    exact ⟨d, hp, hv⟩
+
+/-- a category with an abstract asset (one step with tag, CIA, TTC, meta, requires, reaches) and an asset that extends
+it (one variable) -/
+def demoCategoryToks : List Tok :=
+  [.kwCategory, .id "Sys", .id "user", .kwInfo, .colon, .str "\"x\"", .lcurly,
+     .kwAbstract, .kwAsset, .id "Ab", .lcurly,
+       .or_, .id "s", .at, .id "hidden", .lcurly, .c, .comma, .a, .rcurly, .lsquare, .id "Exponential", .lparen, .float "0.5", .rparen, .rsquare,
+         .id "user", .kwInfo, .colon, .str "\"y\"", .requires, .id "f", .leadsto, .id "g", .dot, .id "h", .comma, .id "k",
+     .rcurly,
+     .kwAsset, .id "Bc", .kwExtends, .id "Ab", .lcurly, .kwLet, .id "v", .assign, .id "f", .union, .id "g", .rcurly,
+   .rcurly]
+
+/-- the statements speak about something, and their hypotheses are satisfiable: on `demoCategoryToks` tree builder and
+model parser succeed and consume everything, and the translated visitor on the `category` context returns the
+rendering of the model's declaration (for every sufficient budget) -/
+example : ∃ t child d, treeDecl 30 (indexed demoCategoryToks) = some (t, []) ∧ t = .rule "declaration" [child] ∧
+    parseDecl 30 demoCategoryToks = some (d, []) ∧
+    ∀ g, t.depth ≤ g → visitF (fun _ => .error .compileError) (tokensV demoCategoryToks) 100 g (.ctx child [t]) = .ok (rDecl d) := by
+  have hmap : (indexed demoCategoryToks).map Prod.fst = demoCategoryToks := by rw [Mal.indexed, List.zipIdx_map_fst]
+  have h := translated_declaration_is_model (fun _ => .error .compileError) demoCategoryToks 100 30
+    (indexed demoCategoryToks) (AtPos.indexed _) (by decide)
+  rw [hmap] at h
+  have hsome : (parseDecl 30 demoCategoryToks).map (·.2) = some [] := by decide
+  have hdepth : (treeDecl 30 (indexed demoCategoryToks)).map (fun r => decide (r.1.depth < 100)) = some true := by decide
+  cases ht : treeDecl 30 (indexed demoCategoryToks) with
+  | none => rw [h.1 ht] at hsome; cases hsome
+  | some r =>
+    obtain ⟨t, irest⟩ := r
+    obtain ⟨d, hp, child, hc, hv⟩ := h.2 t irest ht
+    rw [hp] at hsome
+    have hnil : irest = [] := by simpa using hsome
+    subst hnil
+    rw [ht] at hdepth
+    have hd : t.depth < 100 := by simpa using hdepth
+    exact ⟨t, child, d, rfl, hc, hp, fun g hg => hv g [] hg (by simpa using hd) (fun _ h => by cases h)⟩
+
+/-- the former hypotheses `numOK` (numeric tokens carry a text `float` accepts) and `intOK` (INT tokens are non-empty
+ASCII digit strings) hold of every token the model lexer produces -/
+theorem lexer_tokens_ok (src : String) (ts : List Tok) (h : lex src = some ts) :
+    ∀ t ∈ ts, numOK t = true ∧ intOK t = true :=
+  fun t ht => ⟨tokOK_num (lex_tokOK src ts h t ht), tokOK_int (lex_tokOK src ts h t ht)⟩
+
+/-- the tree builder's start rule consumes a lexed token list completely exactly when the model's `parseMal` accepts it
+(`treeMalRest` ↔ `parseMalRest`: same failures, same tokens left) -/
+theorem translated_parser_accepts_iff (src : String) (ts : List Tok) (h : lex src = some ts) :
+    (∃ t, treeMalRest ts = some (t, [])) ↔ ∃ ds, parseMal ts = some ds :=
+  treeMalRest_parseMal ts (lex_tokOK src ts h)
+
+/-- **translated visitor ∘ tree builder ∘ lexer = rendered `compileFile`.**  For every file system `files`, every root
+file and every include depth `f`: `compileGen` — `MalCompiler.compile` with the model's lexer and tree builder and the
+visitor generated from `mal_visitor.py`, whose `self.compiler.compile` is `compileGen` one level down — returns the
+rendering of the specification the model's `compileFile` returns, and raises where `compileFile` has none (missing
+file, lexical error, syntax error, trailing input, failing include, include depth exhausted).  No hypothesis. -/
+theorem translated_compile_is_model (files : String → Option String) (f : Nat) (name : String) :
+    match compileFile files f name with
+    | some s => compileGen files f (.str name) = .ok (rSpec s)
+    | none => ∃ e, compileGen files f (.str name) = .error e :=
+  compileGen_tie files f name
+
+/-- the same as an equivalence: the translated compile succeeds with `v` iff the model compiles to a specification
+rendered `v` -/
+theorem translated_compile_ok_iff (files : String → Option String) (f : Nat) (name : String) (v : V) :
+    compileGen files f (.str name) = .ok v ↔ ∃ s, compileFile files f name = some s ∧ v = rSpec s := by
+  have h := compileGen_tie files f name
+  cases hc : compileFile files f name with
+  | none =>
+    rw [hc] at h
+    obtain ⟨e, he⟩ := h
+    simp [he]
+  | some s =>
+    rw [hc] at h
+    simp only [h, Except.ok.injEq, Option.some.injEq, exists_eq_left']
+    exact eq_comm
+
+/-- **compile (render (print s)) = s for the translated code**: the file containing the rendered printed specification
+compiles — lexer, tree builder, translated visitor — to the rendering of `s`.  `WFSpec s`: what the compiler can
+produce (distinct keys, no two items equal for Python's `==`, …, `Props/C04.lean`); `NamesLexable s`: the names and
+literals of `s` are lexable. -/
+theorem compile_render_print (files : String → Option String) (f : Nat) (name : String) (s : CSpec)
+    (hw : WFSpec s) (hn : NamesLexable s) (hfile : files name = some (render (prSpec s))) :
+    compileGen files (f+1) (.str name) = .ok (rSpec s) := by
+  have h := compileGen_tie files (f+1) name
+  rw [MalVerif.C04.compile_render_print_names files f name s hw hn hfile] at h
+  exact h
+
+/-- the hypotheses are satisfiable: the demonstration specification of `Props/C04.lean` (most constructs of the
+language) comes back through the translated visitor -/
+example : compileGen (fun n => if n = "demo.mal" then some (render (prSpec MalVerif.C04.demoSpec)) else none) 1
+    (.str "demo.mal") = .ok (rSpec MalVerif.C04.demoSpec) :=
+  compile_render_print _ 0 "demo.mal" _ MalVerif.C04.demoSpec_wf MalVerif.C04.demoSpec_names (by simp)
+
+/-- **include flattening at file level (translated code)**: a file `root` that starts with `include "p"` compiles to
+the same result as the file `root'` that has the declarations of `p` in place of the include (`p` itself without
+includes) — same specification, and it fails iff the other fails -/
+theorem translated_include_flatten_file (files : String → Option String) (f : Nat) (root root' p src src' srcP : String)
+    (ds dsP : List Decl) (hroot : files root = some src) (hsrc : parseSource src = some (.incl p :: ds))
+    (hp : files p = some srcP) (hsrcP : parseSource srcP = some dsP) (hno : ∀ d ∈ dsP, noIncl d = true)
+    (hroot' : files root' = some src') (hsrc' : parseSource src' = some (dsP ++ ds)) (v : V) :
+    compileGen files (f+2) (.str root) = .ok v ↔ compileGen files (f+2) (.str root') = .ok v := by
+  have hmodel : compileFile files (f+2) root = compileFile files (f+2) root' := by
+    rw [compileFile_succ, compileFile_succ, hroot, hroot']
+    simp only [Option.bind_some, hsrc, hsrc']
+    apply assemble_include_first
+    rw [compileFile_succ, hp]
+    simp only [Option.bind_some, hsrcP]
+    exact assemble_noIncl _ _ dsP hno
+  rw [translated_compile_ok_iff, translated_compile_ok_iff, hmodel]
+
+/-- **a repeated include at file level (translated code)**: including `p` once more at the end of the file changes
+nothing in `categories`, `assets`, `associations`, and the two compilations fail together.  (The items of the included
+specification equal themselves for Python's `==` — `compileFile_refl`: the compiler only builds dictionaries with
+distinct keys — so the reflexivity hypothesis of the list-level `translated_include_repeat` is discharged.)  The `defines`
+may differ: a key of `p` re-defined in between is set back (`Proofs/AssembleInclude.lean`, example). -/
+theorem translated_include_repeat_file (files : String → Option String) (f : Nat) (root root' p src src' : String)
+    (sp : CSpec) (ds1 ds2 : List Decl) (hroot : files root = some src)
+    (hsrc : parseSource src = some (ds1 ++ .incl p :: ds2))
+    (hroot' : files root' = some src') (hsrc' : parseSource src' = some (ds1 ++ .incl p :: ds2 ++ [.incl p]))
+    (hp : compileFile files f p = some sp) :
+    (∃ s s', compileGen files (f+1) (.str root) = .ok (rSpec s) ∧ compileGen files (f+1) (.str root') = .ok (rSpec s') ∧
+      s'.categories = s.categories ∧ s'.assets = s.assets ∧ s'.associations = s.associations) ∨
+    ((∃ e, compileGen files (f+1) (.str root) = .error e) ∧ ∃ e, compileGen files (f+1) (.str root') = .error e) := by
+  obtain ⟨hreflc, hrefla, hrefls⟩ := compileFile_refl files f p sp hp
+  have h1 := compileGen_tie files (f+1) root
+  have h2 := compileGen_tie files (f+1) root'
+  rw [compileFile_succ, hroot] at h1
+  rw [compileFile_succ, hroot'] at h2
+  simp only [Option.bind_some, hsrc] at h1
+  simp only [Option.bind_some, hsrc'] at h2
+  have hm := assemble_include_repeat (compileFile files f) p sp ds1 ds2 hp hreflc hrefla hrefls
+  cases ha : assemble (compileFile files f) (ds1 ++ .incl p :: ds2) with
+  | none =>
+    cases hb : assemble (compileFile files f) (ds1 ++ .incl p :: ds2 ++ [.incl p]) with
+    | none => rw [ha] at h1; rw [hb] at h2; exact Or.inr ⟨h1, h2⟩
+    | some s' => rw [ha, hb] at hm; exact hm.elim
+  | some s =>
+    cases hb : assemble (compileFile files f) (ds1 ++ .incl p :: ds2 ++ [.incl p]) with
+    | none => rw [ha, hb] at hm; exact hm.elim
+    | some s' =>
+      rw [ha] at h1; rw [hb] at h2; rw [ha, hb] at hm
+      exact Or.inl ⟨s, s', h1, h2, hm⟩
 
 end MalVerif.PropsGen.C04
